@@ -235,6 +235,18 @@ func main() {
 			if e.readOnly && refgeom.Bits(arg) != before {
 				c.Failf("mutates-argument:"+short(e.name), "%s modified its argument %s -> %v", short(e.name), desc, arg)
 			}
+			if e.readOnly {
+				// the same value laid out as windows of one shared buffer (capacity running into the next member)
+				warg, verify := refgeom.Windowed(g)
+				wres, wpan := try(func() interface{} { return e.call(warg) })
+				if wpan != "" {
+					c.Failf("panic:"+short(e.name)+":windowed", "%s(%s) panicked when the slices of the argument share one buffer: %s", short(e.name), desc, wpan)
+				} else if d := verify(); d != "" {
+					c.Failf("mutates-argument:"+short(e.name), "%s(%s) wrote outside its argument: %s", short(e.name), desc, d)
+				} else if fmt.Sprint(wres) != fmt.Sprint(res) && !strings.Contains(fmt.Sprint(res), "0x") {
+					c.Failf("layout-dependent:"+short(e.name), "%s(%s) = %v, but %v when the slices of the argument share one buffer", short(e.name), desc, res, wres)
+				}
+			}
 			_ = res
 		}
 		// a collection is the combination of its members
@@ -345,6 +357,34 @@ func main() {
 		l := c.Local().(*loc)
 		l.reset(c.Choose(len(coords) / 2))
 		check(c, l.g.Kind(c, gg.KCollection, 0, true))
+	})
+	// rings of three and four vertices, closed and unclosed, in every container (the grammar above stops at two
+	// vertices per list): this is where implicit closing happens, and with the windowed layout where a function
+	// that closes a ring by appending writes into its neighbour
+	ringMenu := []orb.Ring{
+		{{0, 0}, {2, 0}, {2, 2}},
+		{{0, 0}, {2, 0}, {2, 2}, {0, 2}, {0, 0}},
+		{{0.5, 0.5}, {0.5, 1.5}, {1.5, 1.5}, {1.5, 0.5}},
+		{{0.25, 0.25}, {1, 0.25}, {0.25, 1}, {0.25, 0.25}},
+	}
+	r.Explore("ring-containers", fmt.Sprintf("every ordered pair of %d rings (3..4 vertices, closed and unclosed) x 6 container forms x the same entry points and checks", len(ringMenu)), mc.Opts{MaxDev: -1, NewLocal: newLocal, StopAfter: 1 << 30}, func(c *mc.Ctx) {
+		a, b := ringMenu[c.Choose(len(ringMenu))].Clone(), ringMenu[c.Choose(len(ringMenu))].Clone()
+		var g orb.Geometry
+		switch c.Choose(6) {
+		case 0:
+			g = orb.Polygon{a, b}
+		case 1:
+			g = orb.MultiPolygon{{a}, {b}}
+		case 2:
+			g = orb.Collection{a, orb.Polygon{b}}
+		case 3:
+			g = orb.MultiLineString{orb.LineString(a), orb.LineString(b)}
+		case 4:
+			g = orb.Collection{orb.LineString(a), orb.MultiPoint(b)}
+		case 5:
+			g = orb.Collection{orb.MultiPolygon{{a, b}}, orb.Collection{b}}
+		}
+		check(c, g)
 	})
 	// multi-geometries as the combination of their members at map scale (the grammar above has coordinates in
 	// [-2,3], where every tile cover is a single tile): members that are disjoint, touching, overlapping, nested
